@@ -45,25 +45,48 @@ def _run_shard(args):
         raise RuntimeError("shard %r failed:\n%s" % (shard, traceback.format_exc()))
 
 
+def _preload():
+    """Import (never call) the library in the parent so that the per-shard children need not import it again."""
+    import pkgutil
+    import warnings
+    with warnings.catch_warnings():
+        warnings.simplefilter("ignore")
+        try:
+            import pylife
+            mods = [m.name for m in pkgutil.walk_packages(pylife.__path__, "pylife.")]
+        except Exception:
+            return
+        for name in mods:
+            if any(x in name for x in ("vmap", "odbclient", "odbserver", "mesh.gradient", "utils.diagrams")):
+                continue
+            try:
+                importlib.import_module(name)
+            except Exception:
+                pass
+
+
 def explore(mod, tier, seed):
+    """-> (merged Acc, shards, {violation key: index of the first shard that reported it}).
+    Every shard runs in a child forked from this (pristine) parent, which imports pyLife but never calls it:
+    whatever state a shard sees in the process (module level caches, class attributes, mutated defaults) was
+    produced by the shard's own earlier cases, so a shard re-run in a fresh interpreter sees the same."""
     if hasattr(mod, "prepare"):
         mod.prepare(tier)
     shards = mod.shards(tier)
     nproc = int(os.environ.get("VERIF_PROCS", min(16, os.cpu_count() or 1)))
     total = Acc()
-    if nproc <= 1 or len(shards) <= 1:
-        results = (mod.run_shard(s) for s in shards)
-        for r in results:
+    first_shard = {}
+    _preload()
+    ctx = mp.get_context("fork")
+    with ctx.Pool(max(1, min(nproc, len(shards))), maxtasksperchild=1) as pool:
+        # imap keeps enumeration order: the first case of a violation class stays the shortest one
+        for i, r in enumerate(pool.imap(_run_shard, [(mod.__name__, s) for s in shards], chunksize=1)):
+            for k in r.viol:
+                first_shard.setdefault(k, i)
             total.merge(r)
-    else:
-        ctx = mp.get_context("fork")
-        with ctx.Pool(min(nproc, len(shards))) as pool:
-            # imap keeps enumeration order: the first case of a violation class stays the shortest one
-            for r in pool.imap(_run_shard, [(mod.__name__, s) for s in shards], chunksize=1):
-                total.merge(r)
     if total.state_set:
         total.states = len(total.state_set)
-    return total, len(shards)
+    return total, shards, first_shard
 
 
 def replay_in_subprocess(pid, path):
@@ -83,7 +106,12 @@ def do_replay(mod, path, as_json):
         rec = json.load(f)
     if hasattr(mod, "prepare"):
         mod.prepare("quick")
-    found = mod.replay(rec["case"])
+    if "shard" in rec:
+        # a violation that needs the cases in front of it in the same process: re-run the whole shard
+        acc = mod.run_shard(rec["shard"])
+        found = [(k, {"first_case": v[1], "detail": v[2]}) for k, v in acc.viol.items() if k == rec["key"]]
+    else:
+        found = mod.replay(rec["case"])
     found = [(k, jsonable(d)) for k, d in found]
     if as_json:
         print("REPLAY-JSON " + json.dumps(sorted([k, h64(d)] for k, d in found)))
@@ -110,7 +138,8 @@ def main(argv):
             tier = a
     seed = int(os.environ.get("VERIF_SEED", "0") or 0)
     t0 = time.time()
-    acc, nshards = explore(mod, tier, seed)
+    acc, shards, first_shard = explore(mod, tier, seed)
+    nshards = len(shards)
 
     known = {k["key"]: k for k in load_known() if k["property"] == pid and k["status"] == "known"}
     new, listed = [], []
@@ -132,6 +161,17 @@ def main(argv):
         # a violation is only reported if it reproduces identically in two fresh interpreters
         r1 = replay_in_subprocess(pid, path)
         r2 = replay_in_subprocess(pid, path)
+        if r1 == r2 and key not in [k for k, _ in r1]:
+            # the case alone is clean in a fresh interpreter: the violation needs state left behind by the cases
+            # that ran before it in the same process.  Replay the shard (= the complete history of that process).
+            with open(path, "w") as f:
+                json.dump({"property": pid, "key": key, "case": case, "detail": detail, "count_in_run": count,
+                           "tier": tier, "shard": jsonable(shards[first_shard[key]]),
+                           "note": "history dependent: the case alone is clean in a fresh interpreter; 'shard' is "
+                                   "the sequence of cases run in one process, the violation appears at 'case'",
+                           "replay": "./check %s --replay %s" % (pid, path)}, f, indent=1)
+            r1 = replay_in_subprocess(pid, path)
+            r2 = replay_in_subprocess(pid, path)
         if r1 != r2 or key not in [k for k, _ in r1]:
             print("INTERNAL ERROR: replay of %s not reproducible: %s vs %s" % (path, r1, r2))
             return 2
